@@ -32,3 +32,13 @@ pub mod c07;
 pub mod c08;
 #[cfg(all(kani, feature = "c06"))]
 pub mod c06;
+#[cfg(all(kani, feature = "c09"))]
+pub mod c09;
+#[cfg(all(kani, feature = "c10"))]
+pub mod c10;
+#[cfg(all(kani, feature = "c11"))]
+pub mod c11;
+#[cfg(all(kani, feature = "c15"))]
+pub mod c15;
+#[cfg(all(kani, feature = "c16"))]
+pub mod c16;
